@@ -17,13 +17,13 @@
    Why not [mexp] (Base/MeasureExp.v): these members are about SHAPES -- `x[0]`, `x[:, 0][:, None]`,
    `np.broadcast_to(x, y.shape)`, `if y.shape[0] == 0: return y`, `tuple(len(d.subtotals) ..)` --
    and mexp's values carry symbolic axis tags only.  Here VALUES CARRY NUMERIC SHAPES:
-       VScal x | VVec n f | VMat r c f | VNone (Python's None) | VErr (numpy / Python raises)
+       WScal x | WVec n f | WMat r c f | WNone (Python's None) | WErr (numpy / Python raises)
    and every operation follows numpy literally:
      * basic indexing with an integer needs the index IN RANGE (IndexError otherwise: `x[0]` of an
-       array without rows is [VErr] -- the GenAgree lemmas carry the hypotheses  0 < nr  /  0 < nc
+       array without rows is [WErr] -- the GenAgree lemmas carry the hypotheses  0 < nr  /  0 < nc
        exactly where the source needs them);
      * np.broadcast_to(v, shape) is right-aligned; an axis of v must have the target's length or
-       length 1, anything else raises ([VErr]);
+       length 1, anything else raises ([WErr]);
      * np.repeat([x], n) of a scalar x; np.apply_along_axis(np.sum, axis, a) raises when an
        iteration axis has length 0 (hence the guard of `_apply_along_orientation`); np.min / np.max
        of an empty array raise; arithmetic is cell-wise on EQUAL shapes or with a scalar (numpy's
@@ -31,7 +31,7 @@
    A GenAgree lemma is only provable for a non-error value.
 
    LEAVES are looked up in an environment [benv]:
-     [BCube c a]      self._cube_measures.<c>.<a>       (matrix, vector, scalar or None)
+     [BAttr c a]      self._cube_measures.<c>.<a>       (matrix, vector, scalar or None)
      [BBlock m i j]   self._second_order_measures.<m>.blocks[i][j], m a 2-D measure
      [BMBlock m k]    self._second_order_measures.<m>.blocks[k],     m a marginal
      [BSliceAttr a]   self._slice.<a>   (min_base_size_mask.py)      [BSize]  self._size
@@ -55,7 +55,7 @@ Local Open Scope nat_scope.
 (** * syntax *)
 
 (* a boolean argument of a strategy call: a literal or <cube-measure object>.<attribute> *)
-Inductive bflag := FLit (b : bool) | FCube (c a : string).
+Inductive bfl := FLit (b : bool) | FCube (c a : string).
 
 (* basic indexing, the five shapes the sources use *)
 Inductive bidx :=
@@ -68,12 +68,12 @@ Inductive bidx :=
 Inductive cmpop := OLt | OLe | OGt | OGe.
 
 Inductive bexp :=
-| BCube (c a : string)
+| BAttr (c a : string)
 | BBlock (m : string) (bi bj : nat)
 | BMBlock (m : string) (k : nat)
 | BSliceAttr (a : string)
 | BSize
-| BSum (dcn drn : bflag) (c a : string) (bi bj : nat)
+| BSum (dcn drn : bfl) (c a : string) (bi bj : nat)
       (* SumSubtotals.blocks(cube c.a, dims, diff_cols_nan=dcn, diff_rows_nan=drn)[bi][bj];
          .subtotal_columns = [0][1], .subtotal_rows = [1][0], .intersections = [1][1] *)
 | BNanSub (c a : string) (bi bj : nat)     (* NanSubtotals.blocks(cube c.a, dims)[bi][bj] *)
@@ -94,44 +94,44 @@ with bshape :=
 | HTuple2 (a b : bnat)                      (* (a, b) *)
 | HSubsLens                                 (* tuple(len(d.subtotals) for d in self._dimensions) *)
 with bnat :=
-| NLit (k : nat)
-| NAt (h : bshape) (k : nat)                (* h[k] *)
-| NLenSubs (d : nat)                        (* len(self._dimensions[d].subtotals) *)
+| LLit (k : nat)
+| LAt (h : bshape) (k : nat)                (* h[k] *)
+| LSubs (d : nat)                        (* len(self._dimensions[d].subtotals) *)
 with bcond :=
-| CLit (b : bool)
-| CNatEq (a : bnat) (k : nat)               (* a == k *)
-| CShapeIs (h : bshape) (l : list nat)      (* h == (k, ..) *)
-| CIsNone (e : bexp)                        (* e is None *)
-| CFlag (m a : string)                      (* self._second_order_measures.<m>.<a>, a boolean *)
-| CNot (c : bcond).
+| QLit (b : bool)
+| QNatEq (a : bnat) (k : nat)               (* a == k *)
+| QShapeIs (h : bshape) (l : list nat)      (* h == (k, ..) *)
+| QIsNone (e : bexp)                        (* e is None *)
+| QFlag (m a : string)                      (* self._second_order_measures.<m>.<a>, a boolean *)
+| QNot (c : bcond).
 
 (* ------------------------------------------------------------------------------------ *)
 (** * values *)
 
 Inductive bval :=
-| VErr
-| VNone
-| VScal (x : xq)
-| VVec (n : nat) (f : nat -> xq)
-| VMat (r c : nat) (f : nat -> nat -> xq).
+| WErr
+| WNone
+| WScal (x : xq)
+| WVec (n : nat) (f : nat -> xq)
+| WMat (r c : nat) (f : nat -> nat -> xq).
 
 Record benv := mkBenv {
-  e_nr : nat; e_nc : nat;                    (* base rows / columns *)
-  e_nrs : nat; e_ncs : nat;                  (* row / column subtotals *)
-  e_cube : string -> string -> bval;
-  e_cubeflag : string -> string -> bool;
-  e_block : string -> nat -> nat -> bval;
-  e_mblock : string -> nat -> bval;
-  e_mflag : string -> string -> bool;
-  e_slice : string -> bval;
-  e_size : bval;
+  g_nr : nat; g_nc : nat;                    (* base rows / columns *)
+  g_nrs : nat; g_ncs : nat;                  (* row / column subtotals *)
+  g_cube : string -> string -> bval;
+  g_cubeflag : string -> string -> bool;
+  g_block : string -> nat -> nat -> bval;
+  g_mblock : string -> nat -> bval;
+  g_mflag : string -> string -> bool;
+  g_slice : string -> bval;
+  g_size : bval;
   (* SumSubtotals: diff_cols_nan, diff_rows_nan, cube operand, block: the block's cells *)
-  e_sum2 : bool -> bool -> string -> string -> nat -> nat -> nat -> nat -> xq;
+  g_sum2 : bool -> bool -> string -> string -> nat -> nat -> nat -> nat -> xq;
   (* stripe SumSubtotals.subtotal_values on a vector *)
-  e_vsum : (nat -> xq) -> nat -> xq }.
+  g_vsum : (nat -> xq) -> nat -> xq }.
 
-Definition flag_val (E : benv) (b : bflag) : bool :=
-  match b with FLit x => x | FCube c a => e_cubeflag E c a end.
+Definition flag_val (E : benv) (b : bfl) : bool :=
+  match b with FLit x => x | FCube c a => g_cubeflag E c a end.
 
 (* number of rows / columns of block [bi][bj] *)
 Definition blk_rows (nr nrs bi : nat) : option nat :=
@@ -139,13 +139,13 @@ Definition blk_rows (nr nrs bi : nat) : option nat :=
 
 Definition index_val (v : bval) (ix : bidx) : bval :=
   match ix, v with
-  | IAt k, VVec n f => if k <? n then VScal (f k) else VErr
-  | IAt k, VMat r c f => if k <? r then VVec c (f k) else VErr
-  | IRow k, VMat r c f => if k <? r then VVec c (f k) else VErr
-  | ICol k, VMat r c f => if k <? c then VVec r (fun i => f i k) else VErr
-  | ICell i j, VMat r c f => if (i <? r) && (j <? c) then VScal (f i j) else VErr
-  | INewCol, VVec n f => VMat n 1 (fun i _ => f i)
-  | _, _ => VErr
+  | IAt k, WVec n f => if k <? n then WScal (f k) else WErr
+  | IAt k, WMat r c f => if k <? r then WVec c (f k) else WErr
+  | IRow k, WMat r c f => if k <? r then WVec c (f k) else WErr
+  | ICol k, WMat r c f => if k <? c then WVec r (fun i => f i k) else WErr
+  | ICell i j, WMat r c f => if (i <? r) && (j <? c) then WScal (f i j) else WErr
+  | INewCol, WVec n f => WMat n 1 (fun i _ => f i)
+  | _, _ => WErr
   end.
 
 (* one axis of np.broadcast_to: a source axis of length [src] read at target position [i] of an
@@ -155,26 +155,26 @@ Definition bc_ix (src tgt i : nat) : nat := if src =? tgt then i else 0.
 
 Definition broadcast_val (v : bval) (shape : list nat) : bval :=
   match shape, v with
-  | [n], VScal x => VVec n (fun _ => x)
-  | [n], VVec m f => if bc_ok m n then VVec n (fun i => f (bc_ix m n i)) else VErr
-  | [r; c], VScal x => VMat r c (fun _ _ => x)
-  | [r; c], VVec m f => if bc_ok m c then VMat r c (fun _ j => f (bc_ix m c j)) else VErr
-  | [r; c], VMat a b f =>
-      if bc_ok a r && bc_ok b c then VMat r c (fun i j => f (bc_ix a r i) (bc_ix b c j)) else VErr
-  | _, _ => VErr
+  | [n], WScal x => WVec n (fun _ => x)
+  | [n], WVec m f => if bc_ok m n then WVec n (fun i => f (bc_ix m n i)) else WErr
+  | [r; c], WScal x => WMat r c (fun _ _ => x)
+  | [r; c], WVec m f => if bc_ok m c then WMat r c (fun _ j => f (bc_ix m c j)) else WErr
+  | [r; c], WMat a b f =>
+      if bc_ok a r && bc_ok b c then WMat r c (fun i j => f (bc_ix a r i) (bc_ix b c j)) else WErr
+  | _, _ => WErr
   end.
 
 Definition bbin (op : xq -> xq -> xq) (a b : bval) : bval :=
   match a, b with
-  | VScal x, VScal y => VScal (op x y)
-  | VScal x, VVec n g => VVec n (fun i => op x (g i))
-  | VVec n f, VScal y => VVec n (fun i => op (f i) y)
-  | VScal x, VMat r c g => VMat r c (fun i j => op x (g i j))
-  | VMat r c f, VScal y => VMat r c (fun i j => op (f i j) y)
-  | VVec n f, VVec m g => if n =? m then VVec n (fun i => op (f i) (g i)) else VErr
-  | VMat r c f, VMat r' c' g =>
-      if (r =? r') && (c =? c') then VMat r c (fun i j => op (f i j) (g i j)) else VErr
-  | _, _ => VErr
+  | WScal x, WScal y => WScal (op x y)
+  | WScal x, WVec n g => WVec n (fun i => op x (g i))
+  | WVec n f, WScal y => WVec n (fun i => op (f i) y)
+  | WScal x, WMat r c g => WMat r c (fun i j => op x (g i j))
+  | WMat r c f, WScal y => WMat r c (fun i j => op (f i j) y)
+  | WVec n f, WVec m g => if n =? m then WVec n (fun i => op (f i) (g i)) else WErr
+  | WMat r c f, WMat r' c' g =>
+      if (r =? r') && (c =? c') then WMat r c (fun i j => op (f i j) (g i j)) else WErr
+  | _, _ => WErr
   end.
 
 Definition cmp_val (op : cmpop) (x y : xq) : xq :=
@@ -188,98 +188,102 @@ Definition cells (r c : nat) (f : nat -> nat -> xq) : list xq :=
 Definition min_of (l : list xq) : xq := match l with [] => NaN | a :: t => fold_left xmin t a end.
 Definition max_of (l : list xq) : xq := match l with [] => NaN | a :: t => fold_left xmax t a end.
 
-Definition list_eqb (a b : list nat) : bool :=
-  (List.length a =? List.length b) && forallb (fun p => fst p =? snd p) (combine a b).
+Fixpoint list_eqb (a b : list nat) : bool :=
+  match a, b with
+  | [], [] => true
+  | x :: a', y :: b' => (x =? y) && list_eqb a' b'
+  | _, _ => false
+  end.
 
 (* ------------------------------------------------------------------------------------ *)
 (** * the meaning of a term *)
 
 Fixpoint beval (E : benv) (e : bexp) {struct e} : bval :=
   match e with
-  | BCube c a => e_cube E c a
-  | BBlock m bi bj => e_block E m bi bj
-  | BMBlock m k => e_mblock E m k
-  | BSliceAttr a => e_slice E a
-  | BSize => e_size E
+  | BAttr c a => g_cube E c a
+  | BBlock m bi bj => g_block E m bi bj
+  | BMBlock m k => g_mblock E m k
+  | BSliceAttr a => g_slice E a
+  | BSize => g_size E
   | BSum dcn drn c a bi bj =>
-      match e_cube E c a, blk_rows (e_nr E) (e_nrs E) bi, blk_rows (e_nc E) (e_ncs E) bj with
-      | VMat r c' _, Some R, Some C =>
-          if (r =? e_nr E) && (c' =? e_nc E)
-          then VMat R C (e_sum2 E (flag_val E dcn) (flag_val E drn) c a bi bj)
-          else VErr
-      | _, _, _ => VErr
+      match g_cube E c a, blk_rows (g_nr E) (g_nrs E) bi, blk_rows (g_nc E) (g_ncs E) bj with
+      | WMat r c' _, Some R, Some C =>
+          if (r =? g_nr E) && (c' =? g_nc E)
+          then WMat R C (g_sum2 E (flag_val E dcn) (flag_val E drn) c a bi bj)
+          else WErr
+      | _, _, _ => WErr
       end
   | BNanSub c a bi bj =>
-      match e_cube E c a, bi, bj with
-      | VMat r c' f, 0, 0 => VMat r c' f
-      | VMat r c' _, 0, 1 => VMat r (e_ncs E) (fun _ _ => NaN)
-      | VMat r c' _, 1, 0 => VMat (e_nrs E) c' (fun _ _ => NaN)
-      | VMat r c' _, 1, 1 => VMat (e_nrs E) (e_ncs E) (fun _ _ => NaN)
-      | _, _, _ => VErr
+      match g_cube E c a, bi, bj with
+      | WMat r c' f, 0, 0 => WMat r c' f
+      | WMat r c' _, 0, 1 => WMat r (g_ncs E) (fun _ _ => NaN)
+      | WMat r c' _, 1, 0 => WMat (g_nrs E) c' (fun _ _ => NaN)
+      | WMat r c' _, 1, 1 => WMat (g_nrs E) (g_ncs E) (fun _ _ => NaN)
+      | _, _, _ => WErr
       end
   | BVSum a =>
       match beval E a with
-      | VVec n f => if n =? e_nr E then VVec (e_nrs E) (e_vsum E f) else VErr
-      | _ => VErr
+      | WVec n f => if n =? g_nr E then WVec (g_nrs E) (g_vsum E f) else WErr
+      | _ => WErr
       end
   | BVNanSub a =>
       match beval E a with
-      | VVec n _ => VVec (e_nrs E) (fun _ => NaN)
-      | _ => VErr
+      | WVec n _ => WVec (g_nrs E) (fun _ => NaN)
+      | _ => WErr
       end
   | BIndex a ix => index_val (beval E a) ix
   | BBroadcast a h =>
       match heval E h with
       | Some shape => broadcast_val (beval E a) shape
-      | None => VErr
+      | None => WErr
       end
   | BRepeat1 a n =>
       match beval E a, neval E n with
-      | VScal x, Some k => VVec k (fun _ => x)
-      | _, _ => VErr
+      | WScal x, Some k => WVec k (fun _ => x)
+      | _, _ => WErr
       end
   | BApplySum ax a =>
       match beval E a, ax with
-      | VMat r c f, 0 => if c =? 0 then VErr else VVec c (fun j => xsum (tab r (fun i => f i j)))
-      | VMat r c f, 1 => if r =? 0 then VErr else VVec r (fun i => xsum (tab c (fun j => f i j)))
-      | _, _ => VErr
+      | WMat r c f, 0 => if c =? 0 then WErr else WVec c (fun j => xsum (tab r (fun i => f i j)))
+      | WMat r c f, 1 => if r =? 0 then WErr else WVec r (fun i => xsum (tab c (fun j => f i j)))
+      | _, _ => WErr
       end
-  | BEmptyVec => VVec 0 (fun _ => NaN)
+  | BEmptyVec => WVec 0 (fun _ => NaN)
   | BDiv a b => bbin xdiv (beval E a) (beval E b)
   | BMinMax a =>
       match beval E a with
-      | VMat r c f =>
+      | WMat r c f =>
           match cells r c f with
-          | [] => VErr
-          | l => VVec 2 (fun k => match k with 0 => min_of l | _ => max_of l end)
+          | [] => WErr
+          | l => WVec 2 (fun k => match k with 0 => min_of l | _ => max_of l end)
           end
-      | VVec n f =>
+      | WVec n f =>
           match tab n f with
-          | [] => VErr
-          | l => VVec 2 (fun k => match k with 0 => min_of l | _ => max_of l end)
+          | [] => WErr
+          | l => WVec 2 (fun k => match k with 0 => min_of l | _ => max_of l end)
           end
-      | _ => VErr
+      | _ => WErr
       end
   | BCmp op a b => bbin (cmp_val op) (beval E a) (beval E b)
   | BIf c a b =>
       match bceval E c with
       | Some true => beval E a
       | Some false => beval E b
-      | None => VErr
+      | None => WErr
       end
   | BRaiseIf c a =>
       match bceval E c with
       | Some false => beval E a
-      | _ => VErr
+      | _ => WErr
       end
   end
 with heval (E : benv) (h : bshape) {struct h} : option (list nat) :=
   match h with
   | HShape a =>
       match beval E a with
-      | VVec n _ => Some [n]
-      | VMat r c _ => Some [r; c]
-      | VScal _ => Some []
+      | WVec n _ => Some [n]
+      | WMat r c _ => Some [r; c]
+      | WScal _ => Some []
       | _ => None
       end
   | HTuple2 a b =>
@@ -287,40 +291,40 @@ with heval (E : benv) (h : bshape) {struct h} : option (list nat) :=
       | Some x, Some y => Some [x; y]
       | _, _ => None
       end
-  | HSubsLens => Some [e_nrs E; e_ncs E]
+  | HSubsLens => Some [g_nrs E; g_ncs E]
   end
 with neval (E : benv) (n : bnat) {struct n} : option nat :=
   match n with
-  | NLit k => Some k
-  | NAt h k =>
+  | LLit k => Some k
+  | LAt h k =>
       match heval E h with
       | Some l => nth_error l k
       | None => None
       end
-  | NLenSubs d => match d with 0 => Some (e_nrs E) | 1 => Some (e_ncs E) | _ => None end
+  | LSubs d => match d with 0 => Some (g_nrs E) | 1 => Some (g_ncs E) | _ => None end
   end
 with bceval (E : benv) (c : bcond) {struct c} : option bool :=
   match c with
-  | CLit b => Some b
-  | CNatEq a k => match neval E a with Some x => Some (x =? k) | None => None end
-  | CShapeIs h l => match heval E h with Some s => Some (list_eqb s l) | None => None end
-  | CIsNone a => match beval E a with VNone => Some true | VErr => None | _ => Some false end
-  | CFlag m a => Some (e_mflag E m a)
-  | CNot a => match bceval E a with Some b => Some (negb b) | None => None end
+  | QLit b => Some b
+  | QNatEq a k => match neval E a with Some x => Some (x =? k) | None => None end
+  | QShapeIs h l => match heval E h with Some s => Some (list_eqb s l) | None => None end
+  | QIsNone a => match beval E a with WNone => Some true | WErr => None | _ => Some false end
+  | QFlag m a => Some (g_mflag E m a)
+  | QNot a => match bceval E a with Some b => Some (negb b) | None => None end
   end.
 
 (* ------------------------------------------------------------------------------------ *)
 (** * statement shapes of the GenAgree lemmas *)
 
 Definition bagrees_scal (v : bval) (x : xq) : Prop :=
-  match v with VScal y => y = x | _ => False end.
+  match v with WScal y => y = x | _ => False end.
 Definition bagrees_vec (v : bval) (n : nat) (g : nat -> xq) : Prop :=
   match v with
-  | VVec n' f => n' = n /\ forall i, i < n -> f i = g i
+  | WVec n' f => n' = n /\ forall i, i < n -> f i = g i
   | _ => False
   end.
 Definition bagrees_mat (v : bval) (r c : nat) (g : nat -> nat -> xq) : Prop :=
   match v with
-  | VMat r' c' f => r' = r /\ c' = c /\ forall i j, i < r -> j < c -> f i j = g i j
+  | WMat r' c' f => r' = r /\ c' = c /\ forall i j, i < r -> j < c -> f i j = g i j
   | _ => False
   end.
